@@ -8,7 +8,7 @@ evaluator step before the optimizer step; optimizer step - evaluator step - the 
 (the two optimizer steps must be identical within the run); an outer optimization with a nested plan that
 shares the one configuration object.  The workload is run (a) in a fresh interpreter with PYTHONHASHSEED=0
 (reference) and once more in that interpreter, (b) in a second fresh interpreter with another PYTHONHASHSEED, and
-(c) in this process under a set of schedules: after other, different runs (explicit sampler options where
+(c) in that second interpreter under a set of schedules: after other, different runs (explicit sampler options where
 the run under test relies on defaults and vice versa, evaluator steps, merely constructed evaluators); with
 new or reused PluginManager / OptimizerContext / Plan + step objects / the same validated EnOptConfig
 object; with complete other runs executed INSIDE the evaluator of the run under test (same context); with
@@ -53,11 +53,13 @@ RULE = ("per case one configuration drawn from: optimizer in {slsqp, l-bfgs-b, n
         "variables (optionally masked), 1-3 realizations, 2-4 perturbations; one to three samplers of every built-in method "
         "(norm, uniform, truncnorm, sobol, halton, lhs; shared or not; assigned per variable, possibly with -1 and with an unused "
         "sampler; with explicit options for half of the stats samplers); optional sort/cvar objective filter, "
-        "mean/stddev estimators, merged realizations, integer or tuple seeds; and one workload of {optimizer step + gradient probe, "
+        "mean/stddev estimators, merged realizations, integer, tuple or default seeds incl. the falsy seeds 0 and (0, n), the population "
+        "optimizer's seed option given as `seed` or `rng` and with the value 0 in every third such configuration, parallel population "
+        "evaluation, speculative gradients; and one workload of {optimizer step + gradient probe, "
         "evaluator step first, optimizer-evaluator-same optimizer step again, nested plan sharing the configuration object}.  The first "
         "32 configurations enumerate methods x sampler methods x workloads systematically.  Each configuration is run "
         "under every schedule of the tier (fresh interpreter with PYTHONHASHSEED=0 = reference, and a second run in it; fresh "
-        "interpreter with another PYTHONHASHSEED; in process: plain, after other different runs with new / reused PluginManager / reused OptimizerContext, the same EnOptConfig "
+        "interpreter with another PYTHONHASHSEED; then in that interpreter: plain, after other different runs with new / reused PluginManager / reused OptimizerContext, the same EnOptConfig "
         "object run before, the same Plan and step objects run before, an evaluator step and an unused EnsembleEvaluator on the same "
         "configuration object before, complete other runs inside the evaluator, generator-like state (np.random, scipy.stats "
         "distributions) reseeded and drawn from before the run, at every evaluation start and inside every evaluator call) and once more "
@@ -81,13 +83,16 @@ TRUSTED = [
 
 # explicit sampler options (valid SciPy arguments) - "other runs" use them while the run under test relies on the
 # defaults and vice versa: options of one run must never leak into another
+# (several values are falsy but valid and differ from the default: loc 0.0 of uniform, a 0.0 of truncnorm, scramble False)
 SAMPLER_OPTIONS = {
     "norm": [{"scale": 0.5}, {"loc": 0.25}],
-    "uniform": [{"loc": -0.5, "scale": 1.0}, {"scale": 1.0}],
-    "truncnorm": [{"a": -0.5, "b": 0.5}, {"b": 0.25}],
-    # (scramble=False would make sobol/halton deterministic sequences that legitimately ignore the seed)
-    "sobol": [{"bits": 28}, {"bits": 24}],
-    "halton": [{"scramble": True}, {"scramble": True}],
+    "uniform": [{"loc": 0.0, "scale": 1.0}, {"scale": 1.0}],
+    "truncnorm": [{"a": 0.0, "b": 0.75}, {"b": 0.25}],
+    # scramble=False makes sobol/halton deterministic sequences that legitimately ignore the seed, and an unscrambled
+    # Latin hypercube of few points has only a handful of outcomes: for such samplers "another seed, other
+    # perturbations" is not claimed (_seed_clause_applies)
+    "sobol": [{"bits": 28}, {"scramble": False}],
+    "halton": [{"scramble": True}, {"scramble": False}],
     "lhs": [{"scramble": False}, {"strength": 1}],
 }
 METHODS = ["slsqp", "l-bfgs-b", "nelder-mead", "differential_evolution"]
@@ -137,13 +142,19 @@ def _rand_spec(rng, k):
         mask[rng.randrange(nvar)] = False
     spec = {
         "method": method, "workload": workload, "nvar": nvar, "nreal": nreal, "npert": rng.randint(2, 4),
-        # int seed, tuple seed (two different elements), or no seed at all (the documented default seed is part of the configuration)
-        "seed": None if k % 8 == 5 else rng.choice([rng.randrange(1, 10 ** 6), [rng.randrange(1, 50), rng.randrange(50, 100)]]),
+        # int seed, tuple seed (two different elements), no seed at all (the documented default seed is part of the
+        # configuration), and the falsy-but-valid seeds 0 and (0, n)
+        "seed": (None if k % 7 == 5 else 0 if k % 7 == 1 else [0, rng.randrange(50, 100)] if k % 7 == 6 else
+                 rng.choice([rng.randrange(1, 10 ** 6), [rng.randrange(1, 50), rng.randrange(50, 100)]])),
         "samplers": samplers, "sampler_idx": idx, "mask": mask,
         "filter": rng.choice([None, None, "sort-objective", "cvar-objective"]) if nreal == 3 else None,
         "estimator": rng.choice([None, "mean", "stddev"]) if nreal >= 2 else None,
         "merge": rng.random() < 0.2, "max_functions": rng.choice([4, 6, 8, 25]),
-        "de_seed": rng.randrange(1, 1000), "start": [rng.choice([-0.25, 0.0, 0.125, 0.5]) for _ in range(nvar)],
+        # the seed option of the population optimizer: 0 is a valid seed (every third such configuration); SciPy's newer name
+        # for the option is `rng`
+        "de_seed": 0 if (k // 4) % 3 == 0 else rng.randrange(1, 1000), "de_seed_name": "rng" if (k // 4) % 4 == 1 else "seed",
+        "parallel": method == "differential_evolution" and workload != "nested" and (k // 4) % 3 == 1,
+        "speculative": method in ("slsqp", "l-bfgs-b") and rng.random() < 0.3, "start": [rng.choice([-0.25, 0.0, 0.125, 0.5]) for _ in range(nvar)],
         "constraint": method in ("slsqp", "differential_evolution") and rng.random() < 0.4,
         "split": rng.random() < 0.2,
     }
@@ -547,7 +558,11 @@ def _config(spec):
     if spec["sampler_idx"] is not None:
         config["gradient"]["samplers"] = spec["sampler_idx"]
     if spec["method"] == "differential_evolution":
-        config["optimizer"]["options"] = {"seed": spec["de_seed"], "popsize": 2, "maxiter": 3}
+        config["optimizer"]["options"] = {spec.get("de_seed_name", "seed"): spec["de_seed"], "popsize": 2, "maxiter": 3}
+        if spec.get("parallel"):
+            config["optimizer"]["parallel"] = True
+    if spec.get("speculative"):
+        config["optimizer"]["speculative"] = True
     if spec["constraint"]:
         config["nonlinear_constraints"] = {"lower_bounds": [-np.inf], "upper_bounds": [0.75]}
     if spec["filter"] == "sort-objective":
@@ -846,24 +861,40 @@ def _basic_optimizer_rerun(spec):
 
 
 def _child(payload):
-    """Entry point of a fresh interpreter: the workload of the configuration, and (reference only) the same once more."""
+    """Entry point of a fresh interpreter: first the workload of the configuration, alone; then (reference interpreter) the same
+    once more, or (second interpreter) every schedule of the case and the run with another seed."""
     mon = _Monitor.get()
+    spec = payload["spec"]
     # the very first run of the interpreter is left alone: no table snapshot (taking one creates a PluginManager, which
     # would load the entry points before the run does)
-    out = _run_schedule(payload["spec"], dict(_QUIET, name=payload["name"]), mon, tables=False)
-    out["entry_points"] = mon.entry_points
-    if not payload.get("again"):
-        return {"ref": out}
-    again = _run_schedule(payload["spec"], dict(_QUIET, name=payload["name"] + "-second-run"), mon)
-    return {"ref": out, "again": again}
+    first = _run_schedule(spec, dict(_QUIET, name=payload["name"]), mon, tables=False)
+    first["entry_points"] = mon.entry_points
+    out = {"ref": first}
+    if payload.get("again"):
+        out["again"] = _run_schedule(spec, dict(_QUIET, name=payload["name"] + "-second-run"), mon)
+    if payload.get("schedules") is not None:
+        out.update(_in_process(spec, payload["schedules"], mon))
+    return out
 
 
-def _fresh_start(spec, name, hashseed, again=False):
+def _in_process(spec, schedules, mon):
+    runs = []
+    for k, sched in enumerate(schedules):
+        r = _run_schedule(spec, sched, mon)
+        r["g0"] = k + 1
+        runs.append(r)
+    other = json.loads(json.dumps(spec))
+    other["seed"] = _other_seed(spec["seed"])
+    oth = _run_schedule(other, dict(_QUIET, name="other-seed"), mon)
+    return {"runs": runs, "other_seed": {"pert": oth["pert"], "touches": oth["touches"]}}
+
+
+def _fresh_start(spec, name, hashseed, again=False, schedules=None):
     code = ("import sys, json; sys.path.insert(0, %r); from common import use_repo_sources; use_repo_sources(); "
             "import props.C16 as m; out = m._child(json.loads(sys.argv[1])); sys.stdout.write('\\n@@C16@@' + json.dumps(out))" % HARNESS_DIR)
     env = dict(os.environ)
     env["PYTHONHASHSEED"] = str(hashseed)
-    return subprocess.Popen([sys.executable, "-c", code, json.dumps({"spec": spec, "name": name, "again": again})], stdin=subprocess.DEVNULL,
+    return subprocess.Popen([sys.executable, "-c", code, json.dumps({"spec": spec, "name": name, "again": again, "schedules": schedules})], stdin=subprocess.DEVNULL,
                             stdout=subprocess.PIPE, stderr=subprocess.PIPE, text=True, env=env)
 
 
@@ -879,6 +910,22 @@ def _fresh_finish(p):
     return json.loads(out.rsplit("@@C16@@", 1)[1])
 
 
+def _seed_clause_applies(spec):
+    """'Changing only the seed changes the perturbations' is claimed when some free variable is perturbed by a sampler whose
+    draw is continuous in the seed (not an unscrambled QMC sequence / Latin hypercube)."""
+    idx, mask = spec["sampler_idx"], spec["mask"]
+    for v in range(spec["nvar"]):
+        if mask is not None and not mask[v]:
+            continue
+        k = 0 if idx is None else idx[v]
+        if k < 0:
+            continue
+        smp = spec["samplers"][k]
+        if not (smp["method"] in ("sobol", "halton", "lhs") and (smp.get("options") or {}).get("scramble", True) is False):
+            return True
+    return False
+
+
 def _other_seed(seed):
     """A different seed: the next integer; for a tuple the same elements in the other order (different as a seed, equal under
     every symmetric reduction such as a sum); for the default seed an arbitrary explicit one."""
@@ -890,36 +937,36 @@ def _other_seed(seed):
 
 
 def run_impl(case):
+    """Everything runs in two fresh interpreters with explicit hash seeds (`./check` exports PYTHONHASHSEED only after its own
+    interpreter has started, so this process and the pool workers run under an arbitrary hash seed; nothing that is compared
+    is computed here, which keeps every verdict a function of the case alone and every replay reproducible):
+    A (PYTHONHASHSEED=0): the workload alone = reference; the workload once more.
+    B (the case's hash seed): the workload alone; then every schedule of the case, one after the other, in that interpreter;
+      then the run with another seed."""
     spec = case["spec"]
-    mon = _Monitor.get()
-    procs = []
-    if case.get("subprocess", True):        # both fresh interpreters run while this process does the schedules
-        # (the hash seeds are explicit: `./check` exports PYTHONHASHSEED only after its own interpreter has started, so
-        # this process and the pool workers run under an arbitrary hash seed)
-        procs = [_fresh_start(spec, "fresh-interpreter", 0, again=True),
-                 _fresh_start(spec, "fresh-interpreter-other-hashseed", case["hashseed"])]
-    runs = []
-    try:
-        for k, sched in enumerate(case["schedules"]):
-            out = _run_schedule(spec, sched, mon)
-            out["g0"] = k + 1
-            runs.append(out)
-    except BaseException:
-        for p in procs:
-            p.kill()
-        raise
-    if procs:
-        both = _fresh_finish(procs[0])
-        ref = both["ref"]
-        runs.insert(0, both["again"])
-        runs.insert(0, _fresh_finish(procs[1])["ref"])
-    else:                                   # all in process
+    mon_points = None
+    if case.get("subprocess", True):
+        pa = _fresh_start(spec, "fresh-interpreter", 0, again=True)
+        pb = _fresh_start(spec, "fresh-interpreter-other-hashseed", case["hashseed"], schedules=case["schedules"])
+        try:
+            a = _fresh_finish(pa)
+            b = _fresh_finish(pb)
+        except BaseException:
+            for p in (pa, pb):
+                if p.poll() is None:
+                    p.kill()
+            raise
+        ref = a["ref"]
+        runs = [b["ref"], a["again"]] + b["runs"]
+        other_seed = b["other_seed"]
+        mon_points = ref.get("entry_points")
+    else:                                   # all in this process (development only)
+        mon = _Monitor.get()
         ref = _run_schedule(spec, dict(_QUIET, name="inproc-reference"), mon)
-    other = json.loads(json.dumps(spec))
-    other["seed"] = _other_seed(spec["seed"])
-    oth = _run_schedule(other, dict(_QUIET, name="other-seed"), mon)
-    out = {"ref": ref, "runs": runs, "other_seed": {"pert": oth["pert"], "touches": oth["touches"]},
-           "monitor_entry_points": mon.entry_points}
+        both = _in_process(spec, case["schedules"], mon)
+        runs, other_seed = both["runs"], both["other_seed"]
+        mon_points = mon.entry_points
+    out = {"ref": ref, "runs": runs, "other_seed": other_seed, "monitor_entry_points": mon_points}
     if BASIC_OPTIMIZER_RERUN and spec.get("workload", "single") == "single":
         out["basic_rerun"] = _basic_optimizer_rerun(spec)
     return out
@@ -937,7 +984,7 @@ def coq_case(case, obs):
     for r in obs["runs"]:
         sched = cq.lst(cq.zs(m) for m in r["micro"])
         runs.append(f"(robs {sched} {int(r.get('g0', 0))} {_trace_term(r['entries'])} {int(r['exit'])} {int(r['touches'])})")
-    if ref["pert"] is None:
+    if ref["pert"] is None or not _seed_clause_applies(case["spec"]):
         pert = "None"
     else:
         o = obs["other_seed"]["pert"]
@@ -999,7 +1046,7 @@ def oracle(case, obs):
     br = obs.get("basic_rerun")
     if br is not None and (br["first"] != br["second"] or br["exit"][0] != br["exit"][1]):
         return {"clause": "basic-optimizer-rerun-differs", "detail": {"lengths": [len(br["first"]), len(br["second"])], "exit": br["exit"]}}
-    if ref["pert"] is not None and obs["other_seed"]["pert"] == ref["pert"]:
+    if ref["pert"] is not None and obs["other_seed"]["pert"] == ref["pert"] and _seed_clause_applies(case["spec"]):
         return {"clause": "seed-does-not-change-perturbations", "detail": {"seed": case["spec"]["seed"]}}
     if ref["pert"] is None:
         return {"clause": "no-perturbation-was-drawn", "detail": {"workload": case["spec"].get("workload")}}
@@ -1021,7 +1068,12 @@ def features(case, obs):
             "calls": min(40, 4 * (sum(1 for e in obs["ref"]["entries"] if e[0] == "C") // 4)),
             "filter": s["filter"], "estimator": s["estimator"], "mask": s["mask"] is not None,
             "exit": obs["ref"]["exit_name"], "schedules": len(obs["runs"]),
-            "seed": "default" if s["seed"] is None else ("tuple" if isinstance(s["seed"], list) else "int")}
+            "seed": ("default" if s["seed"] is None else ("tuple" if isinstance(s["seed"], list) else "int")) +
+                    ("-with-0" if s["seed"] == 0 or (isinstance(s["seed"], list) and 0 in s["seed"]) else ""),
+            "seed_clause": _seed_clause_applies(s),
+            "de_seed": (s.get("de_seed_name", "seed") + ("=0" if s["de_seed"] == 0 else "=n") + ("/parallel" if s.get("parallel") else ""))
+                       if s["method"] == "differential_evolution" else "-",
+            "speculative": bool(s.get("speculative"))}
 
 
 def known_signature(case, obs, violation):
